@@ -22,6 +22,28 @@ Definition tostr (v : value) : option bytes :=
   | _ => None
   end.
 
+(* the order of numbers on numeric keys (KInt z = z, KDy m e = m * 2^e, KInf); false when one side
+   is not a number *)
+Definition num_scaled (k : key) (d : Z) : option Z :=
+  match k with
+  | KInt z => Some (z * 2 ^ d)
+  | KDy m e => Some (m * 2 ^ (d + e))
+  | _ => None
+  end.
+Definition num_exp (k : key) : Z := match k with KDy _ e => - e | _ => 0 end.
+Definition num_ltb (a b : key) : bool :=
+  match a, b with
+  | KInf x, KInf y => x && negb y
+  | KInf x, (KInt _ | KDy _ _) => x
+  | (KInt _ | KDy _ _), KInf y => negb y
+  | _, _ =>
+    let d := Z.max 0 (Z.max (num_exp a) (num_exp b)) in
+    match num_scaled a d, num_scaled b d with
+    | Some x, Some y => x <? y
+    | _, _ => false
+    end
+  end.
+
 Definition optz (o : option Z) (d : Z) : Z := match o with Some z => z | None => d end.
 
 Section WithMai.
@@ -30,12 +52,25 @@ Section WithMai.
   Definition tableInsert2 (t : tbl) (v : value) : tbl := Append t v.
   Definition tableInsert3 (t : tbl) (pos : Z) (v : value) : tbl := Insert mai t pos v.
 
-  (* after "fix: table.remove(t) removes position #t" (C18-1) *)
-  Definition tableRemove1 (t : tbl) : value * tbl := Remove t (Len t).
-  Definition tableRemove2 (t : tbl) (pos : Z) : value * tbl := Remove t pos.
+  (* tableRemove: pos = optint(2, #t); a position outside 1..#t removes nothing and yields no
+     result (fixes 5ada882 = C18-1 and 5e1cfe4) *)
+  Definition tableRemove (t : tbl) (opos : option Z) : option value * tbl :=
+    let n := Len t in
+    let pos := optz opos n in
+    if (pos <? 1) || (n <? pos) then (None, t)
+    else let (v, t') := Remove t pos in (Some v, t').
+  Definition tableRemove1 (t : tbl) : option value * tbl := tableRemove t None.
+  Definition tableRemove2 (t : tbl) (pos : Z) : option value * tbl := tableRemove t (Some pos).
 
   Definition tableGetN (t : tbl) : Z := Len t.
-  Definition tableMaxN (t : tbl) : Z := MaxN t.
+
+  (* tableMaxN (fix ef2c8e3): max := MaxN(); ForEach: a numeric key > max replaces it.
+     The result is a number, represented as a numeric key. *)
+  Definition tableMaxN (t : tbl) : key :=
+    fold_left (fun mx p => if num_ltb mx (fst p) then fst p else mx) (ForEach t) (KInt (MaxN t)).
+
+  (* tableInsert with 1 or more than 3 arguments raises (fix 1acc103) *)
+  Definition tableInsert_nargs_ok (nargs : Z) : bool := (2 <=? nargs) && (nargs <=? 3).
 
   Definition baseUnpack (t : tbl) (oi oj : option Z) : list value :=
     let i := optz oi 1 in
@@ -57,19 +92,12 @@ Section WithMai.
       end
     end.
 
-  (* after "fix: table.concat returns the empty string when i > j before clamping" (C18-3) *)
+  (* tableConcat after fixes c76dbd8 and b7c8280: no clamping of i and j *)
   Definition tableConcat (t : tbl) (sep : bytes) (oi oj : option Z) : option bytes :=
-    let n := Len t in
     let i := optz oi 1 in
-    let j := optz oj n in
-    let top3 := match oi, oj with Some _, None => true | _, _ => false end in
-    if top3 && ((n <? i) || (i <? 1)) then Some []
-    else if j <? i then Some []
-    else
-      let i' := Z.max (Z.min i n) 1 in
-      let j' := Z.min (Z.min j n) n in
-      if j' <? i' then Some []
-      else concat_loop t sep i' (Z.to_nat (j' - i' + 1)).
+    let j := optz oj (Len t) in
+    if j <? i then Some []
+    else concat_loop t sep i (Z.to_nat (j - i + 1)).
 
   (* ---- tableSort: sort.Sort over lValueArraySorter{Values: tbl.array[:tbl.Len()]} ----
      sort.Sort is an oracle: all it can do is call Less(i,j) and Swap(i,j) with i,j < Len(). *)
@@ -113,8 +141,9 @@ Definition remove_at (pos : Z) (l : list value) : list value :=
 
 Definition lnth (l : list value) (i : Z) : value := nthv l (i - 1).   (* t[i], nil outside 1..n *)
 
-Definition unpack_spec (l : list value) (i j : Z) : list value :=
-  map (lnth l) (zseq i (Z.to_nat (j - i + 1))).
+Definition unpack_specf (f : Z -> value) (i j : Z) : list value :=
+  map f (zseq i (Z.to_nat (j - i + 1))).
+Definition unpack_spec (l : list value) (i j : Z) : list value := unpack_specf (lnth l) i j.
 
 Fixpoint join (sep : bytes) (ps : list bytes) : bytes :=
   match ps with
@@ -131,9 +160,11 @@ Fixpoint all_some {A} (l : list (option A)) : option (list A) :=
   end.
 
 (* table.concat(t, sep, i, j) = t[i]..sep..t[i+1] ... sep..t[j]; "" if i > j; error on a non-string/number *)
-Definition concat_spec (l : list value) (sep : bytes) (i j : Z) : option bytes :=
+Definition concat_specf (f : Z -> value) (sep : bytes) (i j : Z) : option bytes :=
   if j <? i then Some []
-  else option_map (join sep) (all_some (map tostr (unpack_spec l i j))).
+  else option_map (join sep) (all_some (map tostr (unpack_specf f i j))).
+Definition concat_spec (l : list value) (sep : bytes) (i j : Z) : option bytes :=
+  concat_specf (lnth l) sep i j.
 
 (* comparators *)
 Fixpoint bytes_ltb (a b : bytes) : bool :=
